@@ -1,6 +1,6 @@
 """C08 — SOO, StoSOO and DOO evaluate and expand cells by their optimistic rule."""
 from .. import configs
-from ..algorun import replay_algo, run_algo_task
+from ..algorun import bystander_tasks, replay_algo, run_algo_task
 from ..world import QueryAfterRound
 from ..refs.soo_family import SweepOracle
 
@@ -50,6 +50,7 @@ def tasks(tier, seed):
         Tq = (6 if d2 else 8) if tier == "quick" else (8 if d2 else 10)
         ts.append({"kind": "algo", "label": "full/" + lab, "cfg": cfg, "mode": "full", "T": Tq,
                    "R": list(configs.R3), "rng_k": 1 if d2 else None, "cost": 5})
+        ts += bystander_tasks(lab, configs.shifted(cfg), configs.R3, T_long=100, k=1 if tier == "quick" else 2)
         for base in (("peak", "negpeak", "off12") if tier == "quick" else ("peak", "negpeak", "off12", "alt", "zero", "twopeak")):
             ts.append({"kind": "algo", "label": "dev/%s/%s" % (lab, base), "cfg": cfg, "mode": "dev", "T": 100,
                        "R": list(configs.R3), "base": base, "k": 1 if tier == "quick" else 2,
